@@ -38,7 +38,11 @@ class PrecipitateModel (PrecipitateBase):
         '''
         Resets model results
         '''
+        #Keep the population balance models (super().reset() replaces them with default ones,
+        #   which would discard the parameters given to setPBMParameters and setPSDrecording)
+        PBM = self.PBM
         super().reset()
+        self.PBM = PBM
 
         for i in range(len(self.phases)):
             self.PBM[i].reset()
